@@ -197,8 +197,25 @@ def r3(ctx):
                   "the sender remembers what to re-send", witness=args)
         p = rs[0]._parent
         pm = calls_named(st, "PendingMessage")
-        ok = isinstance(p, ast.Assign) and norm(p.targets[0]) == st.params[4] and len(pm) == 1 and norm(pm[0].args[3]) == st.params[4] \
-            and cfg.node_of(pm[0]).id not in cfg.reachable(cfg.entry, avoid=set()) - cfg.reachable(cfg.entry) and norm(pm[0].args[4]) == st.params[3]
+        # by value: what reaches the message's callback slot is the RetrySender built above or the caller's callback as passed in
+        # (in whichever local the two are merged)
+        ok = isinstance(p, ast.Assign) and isinstance(p.targets[0], ast.Name) and len(pm) == 1 and len(pm[0].args) == 5 and isinstance(pm[0].args[3], ast.Name) \
+            and norm(pm[0].args[4]) == st.params[3]
+        if ok:
+            V = pm[0].args[3].id
+            du_ = defuse_of(st)
+            defs = du_.reaching(V, cfg.node_of(pm[0]).id)
+            kinds = set()
+            for (nid, val, how) in defs:
+                if nid == "ENTRY":
+                    kinds.add("param" if V == st.params[4] else "unbound")
+                elif val is rs[0]:
+                    kinds.add("sender")
+                elif isinstance(val, ast.Name) and val.id == st.params[4] and {d[0] for d in du_.reaching(st.params[4], nid)} == {"ENTRY"}:
+                    kinds.add("param")
+                else:
+                    kinds.add("other")
+            ok = kinds == {"param", "sender"} and p.targets[0].id == V
         ctx.check(ok, "C05.R3", st, "the queued message carries the (wrapped) callback and the retry mode", "PendingMessage(seq, type, payload, callback, retry)")
         ap = [c for c in calls_named(st, "append") if norm(c.func.value) == "self.outgoing_messages"]
         # (what is appended is the PendingMessage built here, through a temporary or directly)
